@@ -141,7 +141,7 @@ func checkC13(ctx *Ctx) {
 	outs := []string{"o.txt", "sub/o.txt", "new/deep/er/o.txt", "../sib/o.txt", "../../top/o.txt", "@/abs/o.txt", "a.b/c.d/o.e.f", "x_y/o-1.txt", "../l2/back.txt", "sub/../o2.txt", "./dot/o.txt", "__parent/o.txt",
 		// valid names that look like the encoding's own placeholders: the declared output must still end up at exactly that path
 		"__parent__report.txt", "__fsroot__/a/o.txt", "d/__parent__x/o.txt", "__fsroot__o.txt"}
-	ins := []string{"i.txt", "data/i.txt", "../up/i.txt", "@/absin/i.txt", "../../two/i.txt"}
+	ins := []string{"i.txt", "data/i.txt", "../up/i.txt", "@/absin/i.txt", "../../two/i.txt", "./.hid/i.txt", "./../up2/i.txt", "./dot/i.txt"}
 	cases := []e2ePath{}
 	for _, o := range outs {
 		for j, in := range ins {
